@@ -88,7 +88,8 @@ class Ctx:
         # refinement "twin runs over the lock fragment are reference executions" (Props/Refine.lean) for the lock
         # and deadlock properties
         shared = [(k, mod) for k, mod, users in (("ORACLE", "Oracle", SC_ORACLE_USERS), ("REFINE", "Refine", REFINE_USERS),
-                                                 ("DEADLOCK", "Deadlock", {"C05"}))
+                                                 ("DEADLOCK", "Deadlock", {"C05"}),
+                                                 ("REFINE2", "Refine2", {"C08", "C09"}))
                   if pid in users]
         table = json.load(open(os.path.join(lvlib.VERIF, "checks", "theorems.json")))
         theorems = list(theorems)
